@@ -56,9 +56,12 @@ func getSinfo(v any, omitEmpty bool) (st *sinfo) {
 	}
 	structMut.Lock()
 	defer structMut.Unlock()
+	verifHook("alt.sinfo.locked", nil)
+	defer verifHook("alt.sinfo.unlock", nil)
 	if st = sm[x]; st != nil {
 		return
 	}
+	verifHook("alt.sinfo.fill", nil)
 	return buildStruct(reflect.TypeOf(v), x, omitEmpty)
 }
 
